@@ -8,6 +8,20 @@ let rec pos_of_int (n : int) : positive =
 
 let z_of_int (n : int) : z = if n = 0 then Z0 else if n > 0 then Zpos (pos_of_int n) else Zneg (pos_of_int (-n))
 
+(* decimal string of a 64-bit signed integer (int_fast32_t seed) -> Z *)
+let z_of_seed (s : string) : z =
+  let n = Int64.of_string s in
+  let rec pos (n : Int64.t) : positive =
+    if Int64.equal n 1L then XH
+    else
+      let h = Int64.shift_right_logical n 1 in
+      if Int64.equal (Int64.logand n 1L) 1L then XI (pos h) else XO (pos h)
+  in
+  if Int64.equal n 0L then Z0
+  else if Int64.compare n 0L > 0 then Zpos (pos n)
+  else if Int64.equal n Int64.min_int then Zneg (XO (pos (Int64.shift_right_logical n 1)))
+  else Zneg (pos (Int64.neg n))
+
 let rec int_of_pos = function XH -> 1 | XO p -> 2 * int_of_pos p | XI p -> (2 * int_of_pos p) + 1
 let int_of_z = function Z0 -> 0 | Zpos p -> int_of_pos p | Zneg p -> -int_of_pos p
 
@@ -38,7 +52,7 @@ let () =
        let line = input_line stdin in
        match String.split_on_char ' ' (String.trim line) with
        | [ "S"; seed ] ->
-           let z = z_of_int (int_of_string seed) in
+           let z = z_of_seed seed in
            st := set_seed z;
            chk !st;
            Printf.printf "S %s # idx=%d\n" (state_string !st) (int_of_z (seed_index z))
